@@ -1,2 +1,195 @@
-/- Property theorems for C20 (placeholder until the proofs land). -/
-import Avt.Spec.C20
+/-
+  Avt.Props.C20 — property C20: control strings and unimplemented sequences are inert.
+
+  Parser half: for the text shapes of `Avt.Spec.C20` (complete OSC / DCS / SOS / PM / APC strings,
+  CSI and ESC sequences that select nothing in the reference dispatch tables, unassigned controls)
+  `Parser.feed` — the interpreter of the tables regenerated from /repo/src/parser.rs — emits no
+  function and is back in Ground.  Terminal half: `Vt.feed` touches the terminal only through
+  emitted functions, so the terminal is unchanged and no changed line is reported.
+-/
+import Avt.Lemmas.ParserSeq
+import Avt.Props.C03
+
+namespace Avt.Props.C20
+open Avt Avt.Spec Avt.Spec.C03 Avt.Spec.C20 Avt.ParserTable Avt.ParserSem Avt.ParserSeq Avt.Props.C03
+
+/-! ### parser half -/
+
+/-- what "inert" means for the parser: nothing emitted, back in Ground (invariant kept) -/
+def InertFor (p : Parser) (s : List Nat) : Prop :=
+  ∃ q, run p s = some (q, []) ∧ q.state = .Ground ∧ PInv q = true
+
+theorem inertFor_of_pre {p : Parser} (hp : PInv p = true) (hg : p.state = .Ground) {s : List Nat}
+    (h : InertPre s) : InertFor p s := by
+  obtain ⟨q, h1, h2, h3⟩ := run_refRun hp s h.1
+  have := h.2 (abs p) hg
+  rw [this.1] at h1
+  refine ⟨q, h1, ?_, h3⟩
+  exact (congrArg AState.state h2).trans this.2
+
+/-- **Control strings**: all five kinds, 7- and 8-bit introducers, every payload over printable
+    ASCII / DEL / code points ≥ U+00A0 / C0 other than CAN SUB ESC (and BEL for OSC), terminated by ST
+    in 7- or 8-bit form or BEL for OSC — from every register file in Ground. -/
+theorem C20_strings {p : Parser} (hp : PInv p = true) (hg : p.state = .Ground) (k : StrKind)
+    (intro payload term : List Nat) (hi : intro ∈ k.intros) (hpay : payloadOK k payload = true)
+    (ht : term ∈ k.terms) : InertFor p (intro ++ payload ++ term) :=
+  inertFor_of_pre hp hg (inert_str k intro payload term hi hpay ht)
+
+/-- **Unimplemented CSI sequences**: when (last intermediate or private marker, final, parameters as
+    written) select nothing in the reference table, the whole sequence emits nothing and ends in
+    Ground — from every state and every register file. -/
+theorem C20_unimplemented_csi {p : Parser} (hp : PInv p = true) (intro : List Nat)
+    (hi : intro = [0x1B, 0x5B] ∨ intro = [0x9B]) (t : CsiText) (ht : t.wf = true)
+    (hf : refDispatchCsi t.eff t.final (parseParams t.params) = none) : InertFor p (intro ++ t.body) := by
+  obtain ⟨q, h1, h2, h3⟩ := C03_csi_sequence hp intro hi t ht
+  rw [hf] at h1
+  exact ⟨q, h1, h2, h3⟩
+
+/-- which CSI sequences select nothing: the private markers `<` `=` `>` with any final and any
+    parameters … -/
+theorem C20_markers_select_nothing (m final : Nat) (ps : List (List Nat)) (hm : m = 0x3C ∨ m = 0x3D ∨ m = 0x3E) :
+    refDispatchCsi (some m) final ps = none := by
+  unfold refDispatchCsi
+  split
+  all_goals first
+    | rfl
+    | (exfalso; simp only [Option.some.injEq] at *; done)
+    | (exfalso; simp only [Option.some.injEq] at *; omega)
+    | (exfalso; simp_all)
+
+/-- … every intermediate except the DECSTR spelling `! p` … -/
+theorem C20_intermediates_select_nothing (i final : Nat) (ps : List (List Nat)) (h1 : 0x20 ≤ i) (h2 : i ≤ 0x2F)
+    (hd : ¬ (i = 0x21 ∧ final = 0x70)) : refDispatchCsi (some i) final ps = none := by
+  unfold refDispatchCsi
+  split
+  all_goals first
+    | rfl
+    | (exfalso; simp only [Option.some.injEq] at *; done)
+    | (exfalso; simp only [Option.some.injEq] at *; omega)
+    | (exfalso; simp_all)
+
+/-- … and, without marker or intermediate, every final outside the implemented list -/
+def implementedCsiFinals : List Nat :=
+  [0x40, 0x41, 0x42, 0x43, 0x44, 0x45, 0x46, 0x47, 0x48, 0x49, 0x4A, 0x4B, 0x4C, 0x4D, 0x50, 0x53, 0x54, 0x57,
+   0x58, 0x5A, 0x60, 0x61, 0x62, 0x64, 0x65, 0x66, 0x67, 0x68, 0x6C, 0x6D, 0x72, 0x73, 0x74, 0x75]
+
+theorem C20_finals_select_nothing (final : Nat) (ps : List (List Nat)) (hf : final ∉ implementedCsiFinals) :
+    refDispatchCsi none final ps = none := by
+  unfold refDispatchCsi
+  split
+  all_goals first
+    | rfl
+    | (exfalso; apply hf; decide)
+    | (exfalso; simp_all)
+
+/-- **Unimplemented ESC sequences** -/
+theorem C20_unimplemented_esc {p : Parser} (hp : PInv p = true) (t : EscText) (ht : t.wf = true)
+    (hf : refDispatchEsc t.ints.getLast? t.final = none) : InertFor p (0x1B :: t.body) := by
+  obtain ⟨q, h1, h2, h3⟩ := C03_esc_sequence hp t ht
+  rw [hf] at h1
+  exact ⟨q, h1, h2, h3⟩
+
+/-- **Unassigned C0 / C1 controls** in Ground: the parser does not change at all -/
+theorem C20_unassigned_controls {p : Parser} (hg : p.state = .Ground) (c : Nat) (hc : unassignedControl c = true) :
+    p.feed c = some (p, none) := by
+  have hm : c ∈ List.range' 0 0x20 ++ List.range' 0x80 0x20 := by
+    simp only [unassignedControl, Bool.and_eq_true, Bool.or_eq_true, inR_iff] at hc
+    rw [List.mem_append, List.mem_range'_1, List.mem_range'_1]
+    omega
+  rw [feed_eq_sem, hg]
+  rcases control_w c hm hc with h | ⟨h, he⟩
+  · rw [h]; simp only [sem]; rw [← hg]
+  · rw [h]; simp only [sem]; rw [execute_eq, he, ← hg]
+
+/-- **The oracle's classifier is covered**: every input `Spec.C20.isInertInput` accepts (any
+    concatenation of the shapes above, recognised from the text alone) is inert for the parser. -/
+theorem C20_inert_input {p : Parser} (hp : PInv p = true) (hg : p.state = .Ground) {s : List Nat}
+    (h : isInertInput s = true) : InertFor p s :=
+  inertFor_of_pre hp hg (isInertInput_spec h)
+
+/-! ### terminal half -/
+
+/-- no function emitted ⇒ `Vt::feed` leaves the terminal untouched -/
+theorem C20_inert_terminal {v : Vt} {c : Nat} {p' : Parser} (h : v.parser.feed c = some (p', none)) :
+    v.feed c = some { v with parser := p' } := by
+  unfold Vt.feed
+  rw [h]
+
+/-- a string on which the parser emits nothing leaves the terminal untouched -/
+theorem C20_inert_feedAll {v : Vt} {s : List Nat} {q : Parser} (h : run v.parser s = some (q, [])) :
+    v.feedAll s = some { v with parser := q } := by
+  induction s generalizing v with
+  | nil =>
+    simp only [run, Option.some.injEq, Prod.mk.injEq, and_true] at h
+    subst h
+    rfl
+  | cons c cs ih =>
+    simp only [run] at h
+    cases hf : v.parser.feed c with
+    | none => rw [hf] at h; cases h
+    | some r =>
+      obtain ⟨p', f⟩ := r
+      rw [hf] at h
+      simp only at h
+      cases hr : run p' cs with
+      | none => rw [hr] at h; cases h
+      | some r2 =>
+        obtain ⟨q', fs⟩ := r2
+        rw [hr] at h
+        simp only [Option.some.injEq, Prod.mk.injEq, List.append_eq_nil_iff] at h
+        obtain ⟨rfl, hfn, rfl⟩ := h
+        have hfn' : f = none := by cases f <;> simp_all
+        subst hfn'
+        simp only [Vt.feedAll, C20_inert_terminal hf]
+        exact ih (v := { v with parser := p' }) hr
+
+theorem toVecGo_clean (d : List Bool) (i : Nat) (h : d.all (· == false) = true) : Dirty.toVecGo d i = [] := by
+  induction d generalizing i with
+  | nil => rfl
+  | cons b bs ih =>
+    simp only [List.all_cons, Bool.and_eq_true, beq_iff_eq] at h
+    simp only [Dirty.toVecGo, h.1]
+    exact ih _ h.2
+
+/-- **`feed_str` of an inert input**: the call succeeds; the terminal afterwards is the terminal
+    before, run through the `changes()`/`gc()` every `feed_str` ends with; the changed lines reported
+    are exactly those already pending — none if the previous call cleared the flags; the parser is in
+    Ground. -/
+theorem C20_inert_feedStr {v : Vt} (hp : PInv v.parser = true) (hg : v.parser.state = .Ground) {s : List Nat}
+    (h : isInertInput s = true) :
+    ∃ v' ch, v.feedStr s = some (v', ch) ∧ v'.terminal = finishT v.terminal ∧ v'.parser.state = .Ground
+      ∧ ch.lines = reportedOf v.terminal
+      ∧ (v.terminal.dirtyLines.all (· == false) = true → ch.lines = []) := by
+  obtain ⟨q, h1, h2, -⟩ := C20_inert_input hp hg h
+  have hf := C20_inert_feedAll h1
+  refine ⟨_, _, by unfold Vt.feedStr; rw [hf]; rfl, rfl, h2, rfl, ?_⟩
+  intro hc
+  exact toVecGo_clean _ 0 hc
+
+/-- the same for per-character feeding (`Vt::feed`, which does not run `changes()`/`gc()`) -/
+theorem C20_inert_feedChars {v : Vt} (hp : PInv v.parser = true) (hg : v.parser.state = .Ground) {s : List Nat}
+    (h : isInertInput s = true) :
+    ∃ v', v.feedAll s = some v' ∧ v'.terminal = v.terminal ∧ v'.parser.state = .Ground := by
+  obtain ⟨q, h1, h2, -⟩ := C20_inert_input hp hg h
+  exact ⟨_, C20_inert_feedAll h1, rfl, h2⟩
+
+/-! ### the hypotheses are satisfiable; concrete instances -/
+
+/-- `ESC ] 0 ; t i t l e BEL` `CSI ? 5 n`… : OSC title (BEL), DCS with ST, `CSI > c`, `ESC =`, NUL -/
+example : isInertInput
+    ([0x1B, 0x5D, 0x30, 0x3B, 0x74, 0xE9, 0x0A, 0x7F, 0x07] ++ [0x90, 0x31, 0x24, 0x72, 0x6D, 0x1B, 0x5C]
+      ++ [0x1B, 0x5B, 0x3E, 0x63] ++ [0x9B, 0x35, 0x20, 0x71] ++ [0x1B, 0x3D] ++ [0x00] ++ [0x9F, 0x41, 0x9C]) = true := by
+  decide
+
+example : payloadOK .osc [0x38, 0x3B, 0x3B, 0x68, 0x74, 0x74, 0x70, 0x4E2D, 0x09] = true := by decide
+
+/-- `CSI ? 25 h` (DECSET) and `CSI ! p` (DECSTR) are *not* inert -/
+example : isInertInput [0x9B, 0x3F, 0x32, 0x35, 0x68] = false := by decide
+example : isInertInput [0x9B, 0x21, 0x70] = false := by decide
+/-- an unterminated string is not classified -/
+example : isInertInput [0x1B, 0x5D, 0x30] = false := by decide
+
+/-- from a parser in Ground with stale registers, on a concrete terminal -/
+example : ∃ v : Vt, PInv v.parser = true ∧ v.parser.state = .Ground := ⟨⟨Parser.new, default⟩, by decide, rfl⟩
+
+end Avt.Props.C20
